@@ -18,7 +18,7 @@ RULE = ("histories on a fresh Directory volume: (a) exhaustive: PUT of sizes {0,
         "{absent, intact copy, stored by an acknowledged PUT, corrupt copy} x {run, SIGKILL at every verifPoint reached, context cancelled at every "
         "verifPoint reached}; (b) WriteBlock with a scripted reader: SIGKILL after every chunk, reader error after every "
         "chunk, write failure at a byte limit (RLIMIT_FSIZE), each also killed inside the error path; (c) two overlapping PUTs of one block in one process (A held mid-copy, B started and held, A acknowledged, "
-        "B cancelled / finished / process killed); (d) random histories "
+        "B cancelled / finished / process killed); (d) the volume marked full (<root>/full) before a PUT; (e) random histories "
         "of seed/tick/put/wb/touch/del/untrash/empty ops with kill points. A case is non-trivial when at least one op is "
         "killed, cancelled or faulted; distinct = distinct case line")
 ASSUMPTIONS = [
@@ -167,6 +167,17 @@ def _put2_family(rng, kind, exhaustive):
     return cases
 
 
+def _full_family(rng, kind):
+    """The volume is marked full (<root>/full, as keepstore marks it): a PUT of a new block must not
+    be answered 200; a PUT of a stored block is answered by Touch; after an hour the marker is stale."""
+    b, b2 = _spec(rng, kind), _spec(rng, "small")
+    return [f"hist full;put:{b}:run",
+            f"hist full;put:{b}:{rng.choice(['c0', 'k0', 'c1'])}",
+            f"hist put:{b2}:run;full;put:{b}:run;put:{b2}:run",
+            f"hist seed:{b}:corrupt;full;put:{b}:run",
+            f"hist full;wb:{b}:4096:eof:0:run;tick;put:{b}:run"]
+
+
 def _put_enumeration(rng, kinds, exhaustive):
     cases = []
     for kind in kinds:
@@ -258,9 +269,11 @@ def _random_history(rng, tier):
             ops.append(f"untrash:{b}:{_mode(rng, 2)}")
         elif r < 0.83:
             ops.append(f"empty:{_mode(rng, 2)}")
-        else:
+        elif r < 0.95:
             ops.append("tick")
-    if all(o == "tick" or o.startswith("seed:") for o in ops):
+        else:
+            ops.append("full")
+    if all(o in ("tick", "full") or o.startswith("seed:") for o in ops):
         ops.append(f"put:{bodies[0]}:run")
     return "hist " + ";".join(ops)
 
@@ -275,6 +288,7 @@ def generate(rng, tier):
         cases += _wb_enumeration(rng, ["big"], False)
         for kind in ("small", "small", "big"):
             cases += _put2_family(rng, kind, False)
+        cases += _full_family(rng, rng.choice(["zero", "one", "small", "big"]))
         cases += [_random_history(rng, tier) for _ in range(45)]
     else:
         cases += _put_enumeration(rng, ["zero", "one", "small", "small", "mid", "big"], True)
@@ -283,6 +297,8 @@ def generate(rng, tier):
             cases += _wb_enumeration(rng, ["mid", "big"], True)
         for kind in ("one", "small", "small", "mid", "big"):
             cases += _put2_family(rng, kind, True)
+        for kind in ("zero", "one", "small", "mid", "big"):
+            cases += _full_family(rng, kind)
         cases += [_random_history(rng, tier) for _ in range(400)]
     return cases
 
@@ -329,7 +345,7 @@ def oracle(case, impl):
     if impl.startswith(("panic", "CRASH", "bad-op", "restart-failed")):
         return "driver could not observe the volume: " + impl[:200]
     ops = [o for o in _ops(case)]
-    proc_ops = [o for o in ops if not (o == "tick" or o.startswith("seed:"))]
+    proc_ops = [o for o in ops if not (o in ("tick", "full") or o.startswith("seed:"))]
     segs = impl.split(" | ")
     if proc_ops and len(segs) != len(proc_ops):
         return "driver printed %d segments for %d process ops" % (len(segs), len(proc_ops))
@@ -337,7 +353,7 @@ def oracle(case, impl):
     specs = []
     for o in ops:
         g = o.split(":")
-        if g[0] != "tick" and g[0] != "empty" and g[1] not in specs:
+        if g[0] not in ("tick", "full", "empty") and g[1] not in specs:
             specs.append(g[1])
     acked = {}
     pi = 0
@@ -348,7 +364,7 @@ def oracle(case, impl):
             if g[2] == "corrupt":
                 corrupt_seeded.add(g[1])
             continue
-        if g[0] == "tick":
+        if g[0] in ("tick", "full"):
             continue
         if not proc_ops:
             break
@@ -428,7 +444,7 @@ def oracle(case, impl):
 def nontrivial_key(case, impl):
     for o in _ops(case):
         g = o.split(":")
-        if g[0] in ("tick", "seed"):
+        if g[0] in ("tick", "seed", "full"):
             continue
         if g[-1] != "run" or (g[0] == "wb" and (g[3] != "eof" or g[4] != "0")):
             return case
@@ -443,7 +459,7 @@ def describe(cases, impl):
             ops[g[0]] = ops.get(g[0], 0) + 1
             if g[0] == "seed":
                 pre[g[2]] = pre.get(g[2], 0) + 1
-            if g[0] not in ("tick", "seed"):
+            if g[0] not in ("tick", "seed", "full"):
                 m = g[-1][0] if g[-1] != "run" else "run"
                 modes[m] = modes.get(m, 0) + 1
             if g[0] in ("put", "wb", "put2"):
@@ -467,7 +483,7 @@ def neighbours(case, rng):
         new = []
         for o in ops:
             g = o.split(":")
-            if g[0] not in ("tick", "seed", "put2") and rng.random() < 0.6:
+            if g[0] not in ("tick", "seed", "full", "put2") and rng.random() < 0.6:
                 g[-1] = rng.choice(["run"] + [f"k{i}" for i in range(10)] + ([f"c{i}" for i in range(10)] + [f"m{j}x{c}" for j in range(3) for c in (1, 4096)] if g[0] == "put" else []))
             if g[0] == "wb" and rng.random() < 0.4:
                 size = int(g[1].split(".")[0])
